@@ -171,12 +171,12 @@ func famBenchstat(mode string, args []string) error {
 
 // ---------------------------------------------------------------- concretisation
 
-var bsFileNames = [][3]string{
-	{"old.txt", "new.txt", "third.txt"},
-	{"before", "after", "later"},
-	{"run-1.out", "run-2.out", "run-3.out"},
-	{"a.bench", "b.bench", "c.bench"},
-	{"p1", "p2", "p3"},
+var bsFileNames = [][6]string{
+	{"old.txt", "new.txt", "third.txt", "fourth.txt", "fifth.txt", "sixth.txt"},
+	{"before", "after", "later", "latest", "next", "last"},
+	{"run-1.out", "run-2.out", "run-3.out", "run-4.out", "run-5.out", "run-6.out"},
+	{"a.bench", "b.bench", "c.bench", "d.bench", "e.bench", "f.bench"},
+	{"p1", "p2", "p3", "p4", "p5", "p6"},
 }
 
 var bsMults = []float64{1, 1, 10, 100, 2.5, 0.5, 1000, 7, 1e6, 0.001}
@@ -205,8 +205,14 @@ func bsCaseNo(id json.RawMessage) int64 {
 func newBsConc(id json.RawMessage) *bsConc {
 	c := &bsConc{rng: rand.New(rand.NewSource(seed()*7919 + bsCaseNo(id)*104729 + 17))}
 	fn := bsFileNames[c.rng.Intn(len(bsFileNames))]
-	c.file = map[string]string{"p1": fn[0], "p2": fn[1], "p3": fn[2]}
-	c.names = strings.NewReplacer("p1", fn[0], "p2", fn[1], "p3", fn[2])
+	c.file = map[string]string{}
+	var repl []string
+	for i, f := range fn {
+		tok := "p" + strconv.Itoa(i+1)
+		c.file[tok] = f
+		repl = append(repl, tok, f)
+	}
+	c.names = strings.NewReplacer(repl...)
 	c.mult = bsMults[c.rng.Intn(len(bsMults))]
 	c.zero = []string{"0", "0.0", "0.000", "0e0"}[c.rng.Intn(4)]
 	c.negFrobs = c.rng.Intn(3) == 0
